@@ -59,13 +59,20 @@ def cases(draw):
         variants.append({"beta_f": draw(st.sampled_from([0.5, 0.8, 0.9])), "par_f": draw(st.sampled_from([0.5, 1.5, 2.0])),
                          "leaf": draw(st.sampled_from(["float", "numpy", "jax"]))})
     ops = []
-    if draw(st.booleans()):
+    lead = draw(st.integers(0, 3))
+    if lead in (0, 1):
         # guaranteed interleaving A, B, rebuild, A
         ops = [{"op": "solve", "p": 0, "a": 0, "s": 0}, {"op": "solve", "p": 1, "a": 0, "s": 0},
                {"op": "rebuild", "p": 0, "a": 0, "s": 0}, {"op": "solve", "p": 0, "a": 0, "s": 0}]
+    elif lead == 2:
+        # the same with simulations that request additional targets: A, B, rebuild, B, A
+        ops = [{"op": "sas", "p": 0, "a": 0, "s": 0, "t": 1}, {"op": "sas", "p": 1, "a": 0, "s": 0, "t": 1},
+               {"op": "rebuild", "p": 0, "a": 0, "s": 0}, {"op": "sas", "p": 1, "a": 0, "s": 0, "t": 1},
+               {"op": "sas", "p": 0, "a": 0, "s": 0, "t": 1}]
     for _ in range(draw(st.integers(4, 12))):
         kind = draw(st.sampled_from(["solve", "solve", "simulate", "sas", "sas", "rebuild", "poison", "leafswap", "reuse_dict", "reuse_dict", "twin", "twin"]))
-        ops.append({"op": kind, "p": draw(st.integers(0, nvar - 1)), "a": draw(st.integers(0, 1)), "s": draw(st.integers(0, 1))})
+        ops.append({"op": kind, "p": draw(st.integers(0, nvar - 1)), "a": draw(st.integers(0, 1)), "s": draw(st.integers(0, 1)),
+                    "t": draw(st.integers(0, 2))})
     return {"spec": spec.to_json(), "variants": variants, "agents": [draw(raw_agents(1, 4)), draw(raw_agents(2, 5))],
             "seeds": [draw(st.integers(0, 2**31 - 1)), draw(st.integers(0, 2**31 - 1))], "ops": ops,
             "twin_first": draw(st.integers(0, 2)) == 0,
@@ -178,6 +185,8 @@ def check(case):
         except Exception:  # noqa: BLE001  (only a disturbance)
             pass
     build()
+    pool = [n for n, f in base_spec.functions.items() if not n.endswith("_filter") and not f.get("stochastic")]
+    target_lists = [pool[:3], pool[::-1][:2]]
     memo = {}
     msgs = []
     cnt = {"ops": 0, "memo_hits": 0, "rebuilds": 0, "subprocess_comparisons": 0}
@@ -267,24 +276,31 @@ def check(case):
         snap = snapshot_params(params)
         init = {k: jnp.asarray(v) for k, v in inits[op["a"]].items()}
         seed = case["seeds"][op["s"]]
+        # additional targets: none, or one of two fixed lists of model functions (the same list
+        # is requested again in later calls with other parameter values)
+        tsel = op.get("t", 0) if not reused else 0
+        tkw = {"additional_targets": target_lists[tsel - 1]} if tsel and target_lists[tsel - 1] else {}
+        tsel = tsel if tkw else 0
         if kind == "solve":
             key = ("solve", pi)
             res = call_lcm(fns["solve"], params)
         elif kind == "simulate":
-            key = ("simulate", pi, op["a"], op["s"])
+            key = ("simulate", pi, op["a"], op["s"], tsel)
             # the caller solves once and passes the SAME list object to several simulate calls;
             # the list (an argument of the call) must not be modified
             if pi not in sols:
                 sols[pi] = call_lcm(fns["solve"], params)
             sol = sols[pi]
             ids_before = [id(x) for x in sol]
-            res = call_lcm(fns["simulate"], params, initial_states=init, vf_arr_list=sol, seed=seed)
+            res = call_lcm(fns["simulate"], params, initial_states=init, vf_arr_list=sol, seed=seed, **tkw)
             if [id(x) for x in sol] != ids_before:
                 msgs.append("operation simulate modified the list of value arrays passed in as vf_arr_list")
                 break
         else:
-            key = ("sas", pi, op["a"], op["s"])
-            res = call_lcm(fns["solve_and_simulate"], params, initial_states=init, seed=seed)
+            key = ("sas", pi, op["a"], op["s"], tsel)
+            res = call_lcm(fns["solve_and_simulate"], params, initial_states=init, seed=seed, **tkw)
+        if tsel:
+            cnt["calls_with_additional_targets"] = cnt.get("calls_with_additional_targets", 0) + 1
         history.append(f"{kind[0]}{pi}")
         last_params = params
         if not params_equal(snap, snapshot_params(params)):
